@@ -19,7 +19,11 @@ EXTRA = {'C02-viterbi-star-unit-cycle': ['C02', 'C08', 'C09'], 'C09-viterbi-star
          'C02-scc-cross-edge-lowlink': ['C02', 'C19'], 'C11-logstar-branch-swap': ['C11', 'C08'], 'C12-viterbi-trivial-flag-leak': ['C12', 'C04'],
          'C14-add-rule-skips-equal-rule': ['C14', 'C12'], 'C06-freshen-shared-rename': ['C06', 'C07'], 'C01-unsqueeze-order-by-variable': ['C01', 'C07'],
          'C01-einsum-freshen-tracks-vaxes': ['C01', 'C07'], 'C03-solve-skips-nonpositive-rows': ['C03', 'C09'], 'C19-sum-products-skips-ruleless-nonterminals': ['C19', 'C01'],
-         'C20-add-factor-bind-before-domain-check': ['C20', 'C16'], 'C16-factorgraph-copy-via-from-graph': ['C16', 'C18']}
+         'C20-add-factor-bind-before-domain-check': ['C20', 'C16'], 'C16-factorgraph-copy-via-from-graph': ['C16', 'C18'],
+         'C03-cli-expect-stale-weights-variable': ['C03', 'C11'], 'C11-fixedpoint-stale-final-iterate': ['C11', 'C03'], 'C11-jlog-softmax-allzero-slice': ['C11', 'C03'],
+         'C01-default-to-relabels-shared-axis': ['C01', 'C07'], 'C01-einsum-operand-index-map': ['C01', 'C07'], 'C08-same-paxes-fast-path': ['C08', 'C06'],
+         'C12-new-rule-snapshots-rhs': ['C12', 'C16'], 'C12-viterbi-shared-rhs-pointer-list': ['C12', 'C04'], 'C18-copy-adopts-contiguous-source': ['C18', 'C06'],
+         'C10-method-name-identity-dispatch': ['C10', 'C05'], 'C13-multi-tol0-absent-numeric-zero': ['C13', 'C02']}
 res_path = os.path.join(V, 'seeded', 'RESULTS.json')
 results = json.load(open(res_path)) if os.path.exists(res_path) else {}
 names = sorted(os.path.basename(d) for d in glob.glob(os.path.join(V, 'seeded', '*')) if os.path.isdir(d))
